@@ -39,7 +39,7 @@ def search(tier, seed):
         samples.append("%s: %s -> %s" % (stream, C.show_input(rows[len(rows) // 3][0], 60), verdict(rows[len(rows) // 3][1])))
     # the same kinds of bytes through the framed client codec, under many chunkings: the codec must not panic either
     from . import clientlib as L
-    rows = L.run_stream("framed", seed, 12 if tier == "quick" else 150)
+    rows = L.run_stream("framed", seed, 12 if tier == "quick" else 150, prop=PROP)
     for sess, obs, ref in rows:
         total += 1
         if "PANIC" in obs.split(","):
